@@ -147,27 +147,51 @@ OneLineObligations(hasPath, msgs, out) ==
     /\ ~hasPath => out.file = <<>>
 
 ---------------------------------------------------------------------------
-\* Part 3: Qt's message-handler slot.  Handlers: "default", "logger", foreign handlers "f1", "f2".
+\* Part 3: Qt's message-handler slot and the logger object behind it (logger.cpp: g_previousMessageHandler,
+\* g_activeLogger).  Handlers: "default", "logger" (Logger::messageHandler), foreign handlers "f1", "f2".  Logger
+\* objects: "a", "b" - Logger::messageHandler forwards to the logger that was installed LAST and is still alive; a
+\* logger that is destroyed takes itself out (and only itself: testAndSet), after which messages that still arrive at
+\* Logger::messageHandler are dropped.
+Loggers == {"a", "b"}
 VARIABLES cur,      \* what Qt calls
           saved,    \* g_previousMessageHandler ("none" = null)
-          first     \* ghost: the handler that was active before the logger was first installed ("none" = never)
-ivars == <<cur, saved, first>>
+          first,    \* ghost: the handler that was active before the logger was first installed ("none" = never)
+          active,   \* g_activeLogger ("none" = null)
+          alive     \* ghost: the logger objects that exist
+ivars == <<cur, saved, first, active, alive>>
 
-IInit == cur = "default" /\ saved = "none" /\ first = "none"
+IInit == cur = "default" /\ saved = "none" /\ first = "none" /\ active = "none" /\ alive = Loggers
 
-Install ==                                     \* Logger::installMessageHandler
+InstallBy(x) ==                                \* x.installMessageHandler()
+    /\ x \in alive
     /\ saved' = IF cur # "logger" THEN cur ELSE saved
     /\ first' = IF first = "none" THEN cur ELSE first
     /\ cur' = "logger"
+    /\ active' = x
+    /\ UNCHANGED alive
+Install == InstallBy("a")
 
-Foreign(h) == cur' = h /\ UNCHANGED <<saved, first>>       \* somebody else calls qInstallMessageHandler(h)
+Foreign(h) == cur' = h /\ UNCHANGED <<saved, first, active, alive>>       \* somebody else calls qInstallMessageHandler(h)
 
 Restore ==                                     \* Logger::restorePreviousMessageHandler
     IF saved = "none" THEN UNCHANGED ivars
     ELSE /\ cur' = IF cur = "logger" THEN saved ELSE cur    \* a newer foreign handler stays in place
          /\ saved' = "none" /\ first' = "none"
+         /\ UNCHANGED <<active, alive>>
 
-INext == Install \/ Restore \/ \E h \in {"f1", "f2"} : Foreign(h)
+Kill(x) ==                                     \* Logger::~Logger
+    /\ x \in alive
+    /\ alive' = alive \ {x}
+    /\ active' = IF active = x THEN "none" ELSE active
+    /\ UNCHANGED <<cur, saved, first>>
+
+\* who sees a message emitted through Qt's macros now ("nobody": Qt's default handler, or dropped by Logger::messageHandler)
+Receiver == IF cur = "logger" THEN (IF active = "none" THEN "nobody" ELSE active)
+            ELSE IF cur = "default" THEN "nobody" ELSE cur
+
+INext == \/ \E x \in Loggers : InstallBy(x) \/ Kill(x)
+         \/ Restore
+         \/ \E h \in {"f1", "f2"} : Foreign(h)
 
 \* After a restore the logger is gone from the slot; what is there instead is the handler that was active before the
 \* logger was first installed (or, when a foreign handler was installed between two installs, that one - the
@@ -179,4 +203,8 @@ NewerForeignStays ==
     [][ (saved # "none" /\ saved' = "none" /\ cur # "logger") => cur' = cur ]_ivars
 InstallIdempotent ==
     [][ (cur = "logger" /\ cur' = "logger") => saved' = saved ]_ivars
+\* a destroyed logger never receives anything; destroying one logger does not silence the other
+ActiveIsAlive == active \in alive \cup {"none"}
+KillIsLocal == [][ \A x \in Loggers : (x \in alive /\ x \notin alive' /\ active # x) => active' = active ]_ivars
+LastInstalledReceives == [][ \A x \in Loggers : (active' = x /\ active # x) => (cur' = "logger" /\ Receiver' = x) ]_ivars
 =============================================================================
